@@ -118,9 +118,13 @@ def c03(ck, tier, seed):
 def c04(ck, tier, seed):
     ck.cov["rule"] = ("T: Quant[q][V][f] (3x8x256), Restrict[cube][f] (27x256), apply_Q = Quant o Bin by table "
                       "composition (1/16 sample of 8x3x7x65536 in quick, all in thorough) on BDD and BCDD under 2/6 orders; "
-                      "V: random histories with exists/forall/unique, apply_*, restrict, substitute (reused and alternated)")
+                      "V: random histories with exists/forall/unique, apply_*, restrict, substitute (reused and alternated); "
+                      "substitution objects created and applied by 2..4 threads concurrently")
     vlib.ensure_tables()
     plan = _tables_plan(tier, seed, "quant") + _hist_plan(tier, seed, quick_count=60)
+    # substitution objects created and used by several threads at once ("different substitutions are used
+    # alternately"): ids of simultaneously live objects are distinct (substid.unique), results are right (sem:subst)
+    plan += [("conc", {"kind": k, "seed": seed * 3 + i, "tier": tier}) for i, k in enumerate(["bdd", "bcdd"])]
     _bool_suite(ck, ["C04"], plan)
 
 
